@@ -65,7 +65,7 @@ impl Prop for C10 {
         "exploration"
     }
     fn rule(&self) -> String {
-        "run = seeded valid writer history with interleaved files spanning several chunks and blocks (all layer sets), opened once with the normal reader over the simulated source (one scaled run in 12: the same files in an archive of the independent writer - other ids, every block listed, empty blocks); then a seeded history of 20..200 reader operations on that ONE reader: list, get_hash, open a file (abandoning whichever was open), reads with buffers from {0,1,2,3,5,7,13,31,61,127,CHUNK-1,CHUNK,CHUNK+1,BLOCK-1,BLOCK,BLOCK+1,1 MiB}, read-to-end, reads after the end, opening missing names, the same file repeatedly; a quarter of the file visits STOP EXACTLY (or one byte around) where the file's bytes cross a block or chunk edge of the file-layer stream (positions solved from the stream-length model), abandon the file there and continue with the next operation. One scaled run in 50 has 300..4200 files and a history that asks for the hash of EVERY file, then again for the first 120 and 150 seeded ones, then opens, reads and hashes every seventh file and the first 60 (thousands of operations on one reader). Model: a per-file cursor over the abstract model's bytes (= what reading that file alone right after opening gives, which C01 establishes): every read returns exactly the bytes at the cursor (fewer than asked is allowed, 0 only for an empty buffer or at the end), sizes and hashes equal the model's at every point of the history. distinct_nontrivial = distinct (variant, layers, #files, interleaved, abandon point class vs chunk/block edge, buffer class) signatures.".into()
+        "run = seeded valid writer history with interleaved files spanning several chunks and blocks (all layer sets), opened once with the normal reader over the simulated source (one scaled run in 12: the same files in an archive of the independent writer - other ids, every block listed, empty blocks); then a seeded history of 20..200 reader operations on that ONE reader: list, get_hash, open a file (abandoning whichever was open), reads with buffers from {0,1,2,3,5,7,13,31,61,127,CHUNK-1,CHUNK,CHUNK+1,BLOCK-1,BLOCK,BLOCK+1,1 MiB}, read-to-end, reads after the end, opening missing names, the same file repeatedly; a quarter of the file visits STOP EXACTLY (or one byte around) where the file's bytes cross a block or chunk edge of the file-layer stream (positions solved from the stream-length model), abandon the file there and continue with the next operation. One scaled run in 40 holds files of 70..1000 non-contiguous runs of 1-3 bytes. One scaled run in 50 has 300..4200 files and a history that asks for the hash of EVERY file, then again for the first 120 and 150 seeded ones, then opens, reads and hashes every seventh file and the first 60 (thousands of operations on one reader). Model: a per-file cursor over the abstract model's bytes (= what reading that file alone right after opening gives, which C01 establishes): every read returns exactly the bytes at the cursor (fewer than asked is allowed, 0 only for an empty buffer or at the end), sizes and hashes equal the model's at every point of the history. distinct_nontrivial = distinct (variant, layers, #files, interleaved, abandon point class vs chunk/block edge, buffer class) signatures.".into()
     }
     fn assumptions(&self) -> Vec<String> {
         vec!["the source splits nothing (split sources are C13)".into()]
@@ -103,8 +103,15 @@ impl Prop for C10 {
             let ll = rng.range(1, 2) as usize;
             ops = gen_many_files(&mut rng, n, ll, 12);
         }
+        let many_runs = !big && !sweep && rng.chance(1, 40);
+        if many_runs {
+            // a file whose content lies in hundreds of non-contiguous runs of 1-3 bytes (its offsets list has as many
+            // entries): abandoned inside run k, re-opened, read with buffers larger than a run
+            let runs = *rng.pick(&[70usize, 256, 300, 1000]);
+            ops = gen_many_runs(&mut rng, runs);
+        }
         let mut case = Case::new("C10", cfg, ops);
-        if !big && !sweep && rng.chance(1, 12) {
+        if !big && !sweep && !many_runs && rng.chance(1, 12) {
             case.params.insert("foreign".into(), 1);
         }
         let model = model_of(&case.ops);
